@@ -96,6 +96,36 @@ def gather_programs(chk, quick, rng, W):
     reclist = open(os.path.join(vcheck.VERIF, "programs", "recursive_list.j5s")).read()
     cases.append({"files": {"foo/v1/rec.j5s": reclist}, "cls": "recursive-list"})
     cases.append({"files": {"foo/v1/rec.j5s": reclist.replace("field parent object:Node\n", "field parent oneof {\n\t\toption node object:Node\n\t\toption peer object:Peer\n\t}\n")}, "cls": "recursive-list"})
+    # (f) a proto tree whose packages refer into each other's sub-packages (service / topic) without touching the parent package:
+    # with the partial images of the pipeline driver every such parent is exported as an indirect package found only through a sub-package
+    cases.append({"proto_root": os.path.join(vcheck.VERIF, "programs", "cross_sub"), "cls": "proto-tree:cross-sub", "image": True})
+    # (g) every reference graph of spec/PackageExport.tla over three root packages and their service / topic sub-packages, written
+    # as a proto tree (one file and one message per node, one field per reference); the driver exports it once per named root
+    r = chk.tlc("PackageExport.tla", "PackageExport_q.cfg" if quick else "PackageExport_t.cfg", "pkgexport", workers=W, timeout=900)
+    if r.violated:
+        chk.machinery_errors.append("PackageExport model violates %s" % r.violated)
+    graphs = r.cases
+    r.cases = []
+    rng.shuffle(graphs)
+    # graphs with an edge into a sub-package first (the parent is then reached only through the sub-package)
+    graphs.sort(key=lambda g: -sum(1 for e in g.get("refs", []) if e[0].split(".")[:2] != e[1].split(".")[:2] and e[1].count(".") == 2))
+    nodes = [r0 + s for r0 in ("a.v1", "b.v1", "c.v1") for s in ("", ".service", ".topic")]
+    for gi, g in enumerate(graphs[: (300 if quick else 4000)]):
+        root = os.path.join(chk.dir, "pkgexport_trees", "g%05d" % gi)
+        for n in nodes:
+            outs = [e[1] for e in g.get("refs", []) if e[0] == n]
+            path = os.path.join(root, n.replace(".", "/"), "node.proto")
+            os.makedirs(os.path.dirname(path), exist_ok=True)
+            imps = sorted({t for t in outs if t != n})
+            txt = "syntax = \"proto3\";\n\npackage %s;\n\n" % n
+            txt += "".join("import \"%s/node.proto\";\n" % t.replace(".", "/") for t in imps) + ("\n" if imps else "")
+            txt += "message Msg {\n  string id = 1;\n"
+            for k, t in enumerate(outs):
+                shape = ("%s.Msg", "repeated %s.Msg", "map<string, %s.Msg>")[(gi + k) % 3] % t
+                txt += "  %s ref_%d = %d;\n" % (shape, k, k + 2)
+            txt += "}\n"
+            open(path, "w").write(txt)
+        cases.append({"proto_root": root, "cls": "proto-tree:pkgexport", "image": True})
     j5st = {}
     for p in glob.glob(os.path.join(vcheck.REPO, "j5stest", "proto", "**", "*.j5s"), recursive=True):
         j5st[os.path.relpath(p, os.path.join(vcheck.REPO, "j5stest", "proto"))] = open(p).read()
